@@ -6,3 +6,92 @@ Print Assumptions c16_marker_display_width.
 Theorem c16_prefix_verbatim : forall t p l, rline_string (attach_prefix t p (RText l)) = p ++ tl_string l.
 Proof. intros t p l. apply attach_prefix_text. right. exact I. Qed.
 Print Assumptions c16_prefix_verbatim.
+
+(* ---------- the trivial decorator's exact character set; affixes of every decorator verbatim around the element text (Proofs/Decorators.v) ---------- *)
+From H2T Require Import Base Tagged Wrap Sub Css Dom Render Api CssParse Proofs.CssTotal Proofs.WrapInv Proofs.RenderWidth Proofs.Conserve Proofs.Footnotes Proofs.AnnBalance Proofs.RenderConserve Proofs.OptionRel Proofs.Compose Proofs.RenderTotal Proofs.FragStream Proofs.SimRel Proofs.Prune Proofs.Decorators.
+Theorem c16_trivial_chars :
+  forall (fs fp ff : bool) (mw : N) (o : ropts) (width : N) (tree : rnode) (s : subr) (ls : list rline),
+       triv_adm o fs fp ff tree = true ->
+       render_tree trivial_deco mw o width tree = Ok s ->
+       sub_into_lines s = Ok ls ->
+       Forall (fun c : chr => triv_ok fs fp ff c = true) (flat_map rline_string ls).
+Proof. exact Decorators.c16_trivial_chars. Qed.
+Print Assumptions c16_trivial_chars.
+
+Theorem c16_trivial_string :
+  forall (fs fp ff : bool) (mw : N) (o : ropts) (width : N) (tree : rnode) (s : subr) (t : text),
+       triv_adm o fs fp ff tree = true ->
+       render_tree trivial_deco mw o width tree = Ok s ->
+       sub_into_string s = Ok t -> Forall (fun c : chr => triv_ok fs fp ff c = true) t.
+Proof. exact Decorators.c16_trivial_string. Qed.
+Print Assumptions c16_trivial_string.
+
+Theorem c16_trivial_string_from_read :
+  forall (fs fp ff : bool) (ist : list (text * text) -> res (list styledecl))
+         (dr : list node -> res (list ruleset)) (c : config) (doc : list node) (width : N) 
+         (tree : rnode) (t : text),
+       c_deco c = trivial_deco ->
+       to_render_tree ist dr c doc = Ok tree ->
+       triv_adm (render_options c) fs fp ff tree = true ->
+       string_from_read ist dr c doc width = Ok t -> Forall (fun x : chr => triv_ok fs fp ff x = true) t.
+Proof. exact Decorators.c16_trivial_string_from_read. Qed.
+Print Assumptions c16_trivial_string_from_read.
+
+Theorem c16_trivial_lines_from_read :
+  forall (fs fp ff : bool) (ist : list (text * text) -> res (list styledecl))
+         (dr : list node -> res (list ruleset)) (c : config) (doc : list node) (width : N) 
+         (tree : rnode) (tls : list tline),
+       c_deco c = trivial_deco ->
+       to_render_tree ist dr c doc = Ok tree ->
+       triv_adm (render_options c) fs fp ff tree = true ->
+       lines_from_read ist dr c doc width = Ok tls ->
+       Forall (fun x : chr => triv_ok fs fp ff x = true) (flat_map tl_string tls).
+Proof. exact Decorators.c16_trivial_lines_from_read. Qed.
+Print Assumptions c16_trivial_lines_from_read.
+
+Theorem c16_trivial_perm :
+  forall (fs fp ff : bool) (mw : N) (o : ropts) (width : N) (tree : rnode) (s : subr) (ls : list rline),
+       triv_adm o fs fp ff tree = true ->
+       Forall posw (tree_stream trivial_deco mw o tree width) ->
+       render_tree trivial_deco mw o width tree = Ok s ->
+       sub_into_lines s = Ok ls ->
+       Permutation.Permutation (filter (tvis fs fp ff) (flat_map rline_string ls))
+         (tree_stream trivial_deco mw o tree width).
+Proof. exact Decorators.c16_trivial_perm. Qed.
+Print Assumptions c16_trivial_perm.
+
+Theorem c16_trivial_exact :
+  forall (fs fp ff : bool) (mw : N) (o : ropts) (width : N) (tree : rnode) (s : subr) (ls : list rline),
+       triv_adm o fs fp ff tree = true ->
+       no_table tree = true ->
+       render_tree trivial_deco mw o width tree = Ok s ->
+       sub_into_lines s = Ok ls -> filter (tvis fs fp ff) (flat_map rline_string ls) = leaf_stream tree.
+Proof. exact Decorators.c16_trivial_exact. Qed.
+Print Assumptions c16_trivial_exact.
+
+Theorem c16_affixes_node :
+  forall (d : deco) (mw : N) (o : ropts) (n : rnode) (st st' : rstate) (s : subr) (rest : list subr),
+       flow n = true ->
+       stack st = s :: rest ->
+       sopts s = o ->
+       pfc s ->
+       render_node d mw n st = Ok st' ->
+       exists s' : subr,
+         stack st' = s' :: rest /\
+         sopts s' = o /\
+         filter_depth s' = filter_depth s /\
+         pfc s' /\
+         gout nonws s' = gout nonws s ++ full_stream d o (filter_depth s) n (length (links st)) /\
+         links st' = links st ++ all_links n.
+Proof. exact Decorators.c16_affixes_node. Qed.
+Print Assumptions c16_affixes_node.
+
+Theorem c16_affixes_tree :
+  forall (d : deco) (mw : N) (o : ropts) (width : N) (tree : rnode) (s : subr) (ls : list rline),
+       flow tree = true ->
+       render_tree d mw o width tree = Ok s ->
+       sub_into_lines s = Ok ls ->
+       filter nonws (flat_map rline_string ls) = full_stream d o 0 tree 0 ++ foot_stream o (all_links tree).
+Proof. exact Decorators.c16_affixes_tree. Qed.
+Print Assumptions c16_affixes_tree.
+
